@@ -32,6 +32,7 @@ class Contract:
         self.assumed = False    # external / trusted: never verified, listed in the trusted base
         self.why = ""           # justification for assumed contracts
         self.ghost = {}          # ghost (skolem) parameters: arbitrary constants when verifying, universally quantified at call sites
+        self.observe = {}        # name -> fn(params...) : observer terms whose model values are reported with counter-models
         self.fresh_result = False  # the returned object is newly allocated by the function (checked when verifying)
         self.ghost_init = None  # fn(engine, state) -> None, sets up ghost state for verification
         self.concretise = None  # fn(model dict) -> (args, kwargs) for native replay
@@ -122,3 +123,9 @@ class UFun:
 
 def ufun(name, argtypes, rettype):
     return UFun(name, argtypes, rettype)
+
+
+def in_lang(regex_text, s):
+    """s is in the language of regex_text (whole-string match).  Symbolic: z3 regular-language membership."""
+    import re
+    return re.fullmatch(regex_text, s, re.DOTALL) is not None
